@@ -12,4 +12,12 @@ PROPS = {
         ],
         "trusted_base": ["sort.Search is modelled by its binary-search loop (proved to return the least index)"],
     },
+    "C06": {
+        "suites": ["c06"],
+        "assumptions": COMMON_ASSUME + [
+            "Go's utf8 decoding (range over string) and bytes.Buffer.WriteRune are re-implemented in Lean (Tally/Model/Utf8.lean) and compared byte for byte through the differential",
+            "a replacement rune that is not a Unicode scalar value is written as U+FFFD (lemma encodeRune; the oracle uses normRep)",
+        ],
+        "trusted_base": ["sync.Pool buffer recycling is not modelled; its independence is exercised by 16 concurrent goroutines per 40th case"],
+    },
 }
